@@ -28,7 +28,8 @@ theorem dotZ_shift (sa sb za zb : Int) : ∀ (a b : List Int),
     simp only [List.map_cons, dotZ, dotZ_shift sa sb za zb xs ys]
     grind
 
-/-- **C17.O2** MatMulInteger wrapper = definition: for every operand type combination
+/-- **C17.O2** MatMulInteger wrapper (the `ShiftCast` / XOR-0x80 branch, i.e. whenever the LHS is
+`u8` or the default kernel cannot saturate) = definition: for every operand type combination
 (`u8`/`i8` × `u8`/`i8`), all values, all zero points and lengths, shift casting operands *and* zero
 points leaves `Σ_k (a_k − za)(b_k − zb)` unchanged. -/
 theorem c17_matmulinteger_wrapper_exact (da db : Dt) (za zb : Int) (a b : List Int) :
@@ -53,22 +54,22 @@ example : mmiEntry .i8 .u8 (-128) 255 [-128, 127, 0] [0, 255, 128] =
 
 /-- **C17.O4 (partial)** The `may_saturate` LHS path (shift by `−min(0, min a)`) is exact provided
 the shifted zero point still fits `u8`.  The full statement is false: see the witness below. -/
-theorem c17_minshift_exact_partial (za zb : Int) (a b : List Int)
-    (h : 0 ≤ za + minShift a ∧ za + minShift a ≤ 255) :
-    mmiEntryMinShift za zb a b = dotZ za zb a b := by
+theorem c17_minshift_exact_partial (t : List Int) (za zb : Int) (a b : List Int)
+    (h : 0 ≤ za + minShift t ∧ za + minShift t ≤ 255) :
+    mmiEntryMinShift t za zb a b = dotZ za zb a b := by
   unfold mmiEntryMinShift
-  simp only []
-  have e : (za + minShift a) % 256 = za + minShift a := by omega
+  have e : (za + minShift t) % 256 = za + minShift t := by omega
   rw [e]
-  have := dotZ_shift (minShift a) 0 za zb a b
+  have := dotZ_shift (minShift t) 0 za zb a b
   simpa using this
 
 /-- **Observation (not a finding: no failing input can be shown on the real code on this host,
-whose default int8 kernel is AVX-512 VNNI)**: `shift_cast_gemm_lhs_to_u8` truncates `zero_point + shift` with `as u8`.  When an `i8` LHS
-has a zero point below `min(0, min value)` the truncation wraps: `a = [1, 2]`, `za = −3` gives
+whose default int8 kernel is AVX-512 VNNI; this branch is not driven by the harness)**:
+`shift_cast_gemm_lhs_to_u8` truncates `zero_point + shift` with `as u8`.  When an `i8` LHS
+has a zero point below `min(0, min value)` the truncation wraps: tensor `[1, 2]`, `za = −3` gives
 shift 0 and zero point 253, so the wrapper computes `Σ (a − 253)·b` instead of `Σ (a + 3)·b`. -/
 theorem c17_minshift_zero_point_wraps :
-    mmiEntryMinShift (-3) 0 [1, 2] [1, 1] = -503 ∧ dotZ (-3) 0 [1, 2] [1, 1] = 9 := by decide
+    mmiEntryMinShift [1, 2] (-3) 0 [1, 2] [1, 1] = -503 ∧ dotZ (-3) 0 [1, 2] [1, 1] = 9 := by decide
 
 /-! ### ConvInteger -/
 
